@@ -1,14 +1,10 @@
-import Tapeverif.Lemmas.BigStep
-import Tapeverif.Model.Tools
+import Tapeverif.Lemmas.Run
 /-! # C04 — merklized scripts -/
 namespace TV.C04
 
 open Instr Tools
 
-variable (H : Hashes)
-
-/-- one big-step rule, then normalise the record updates in the new state -/
-macro "nstep " t:term : tactic => `(tactic| (refine $t; try dsimp only))
+variable (H : Hashes) (C : Curve)
 
 /-- the digest `OP_MERKLEVAL` compares with the committed root -/
 def levelDigest (script sib : Bytes) : Bytes :=
@@ -140,5 +136,293 @@ theorem merkleval_accepts (cfg : Cfg) (T : UInt8 → Op) (k : Op) (fr : Frame) (
   nstep Steps.pop (boolBytes true) (script :: st) rfl ?_
   simp only [show truthy (boolBytes true) = true by decide, ↓reduceIte]
   exact hk
+
+/-! ### whole trees -/
+
+theorem zipWithPad_comm (f : UInt8 → UInt8 → UInt8) (hf : ∀ a b, f a b = f b a) :
+    ∀ (a b : Bytes), zipWithPad f a b = zipWithPad f b a := by
+  intro a
+  induction a with
+  | nil =>
+    intro b
+    induction b with
+    | nil => rfl
+    | cons y s ih => simp [zipWithPad, hf, ih]
+  | cons x r ih =>
+    intro b
+    cases b with
+    | nil =>
+      have := ih []
+      simp [zipWithPad, hf, this]
+    | cons y s => simp [zipWithPad, hf, ih]
+
+theorem xorBytes_comm (a b : Bytes) : xorBytes a b = xorBytes b a :=
+  zipWithPad_comm _ (fun x y => by exact UInt8.xor_comm x y) a b
+
+/-- a subtree's executed script hashes to its commitment -/
+theorem code_commitment (t : Tree) : H.sha256 (Tree.code H t) = Tree.commitment H t := by
+  cases t with
+  | leaf s => simp [Tree.code, Tree.commitment]
+  | node l r => simp [Tree.code, Tree.commitment, Tree.lockScript]
+
+/-- **every level of every tree verifies**, whichever side the executed subtree is on -/
+theorem level_ok_left (l r : Tree) :
+    levelDigest H (Tree.code H l) (Tree.commitment H r) = Tree.root H (.node l r) := by
+  unfold levelDigest
+  rw [code_commitment, xorBytes_comm]
+  simp [Tree.root]
+
+theorem level_ok_right (l r : Tree) :
+    levelDigest H (Tree.code H r) (Tree.commitment H l) = Tree.root H (.node l r) := by
+  unfold levelDigest
+  rw [code_commitment]
+  simp [Tree.root]
+
+
+/-- the items a leaf's unlocking script leaves on the stack (top first): per level the executed
+    script of the subtree on the path, then the sibling's commitment -/
+def proofStack : Tree → List Bool → List Bytes
+  | .node l r, d :: rest =>
+    let sub := if d then r else l
+    let sib := if d then l else r
+    Tree.code H sub :: Tree.commitment H sib :: proofStack sub rest
+  | _, _ => []
+
+/-- the leaf script reached by a path -/
+def leafAt : Tree → List Bool → Option Bytes
+  | .leaf s, [] => some s
+  | .node l r, d :: rest => leafAt (if d then r else l) rest
+  | _, _ => none
+
+/-- frame and state in which the leaf script starts: per level one `OP_EVAL` entry (call counter
+    + 1, a copy of the definition dictionary), the proof items popped -/
+def leafEntry : Tree → List Bool → Frame → Shared → List Bytes → Frame × Shared
+  | .node l r, d :: rest, fr, sh, st =>
+    let sub := if d then r else l
+    let sh1 : Shared := { sh with stack := proofStack H sub rest ++ st }
+    let frE := evalFrame (Tree.code H sub) (getCount fr sh1) (copyDict sh1 fr.dict).1
+    let shE := (copyDict sh1 fr.dict).2
+    match sub with
+    | .leaf _ => (frE, shE)
+    | .node _ _ => leafEntry sub rest { frE with rest := Tree.root H sub } shE st
+  | _, _, fr, sh, _ => (fr, sh)
+
+
+/-- **C04 completeness and exactness, whole tree.** From a stack holding the proof of the leaf
+    at `path` (as its unlocking script leaves it) above `st`, `OP_MERKLEVAL <root>` ends exactly
+    as the leaf script does when started on `st` in the frame `leafEntry` describes — same
+    cache, plugin log and random counter as before the lock, the call counter advanced by the
+    number of levels — seen through `eval` by the lock's tape. The only scripts that run on the
+    way are the level scripts `OP_MERKLEVAL <subroot>` of the path; no other leaf starts. -/
+theorem tree_run (cfg : Cfg) (hev : cfg.disallowEval = false)
+    (hH : ∀ x, (H.sha256 x).length = 32) :
+    ∀ (path : List Bool) (t : Tree) (s : Bytes) (fr : Frame) (sh : Shared) (st : List Bytes) (rest : Bytes) (rL : Res),
+    (∃ l r, t = .node l r) → leafAt t path = some s → s ≠ [] →
+    fr.rest = Tree.root H t ++ rest →
+    sh.stack = proofStack H t path ++ st →
+    (∀ x ∈ proofStack H t path, x.length ≤ cfg.lim.maxItemSize) → 32 ≤ cfg.lim.maxItemSize →
+    (proofStack H t path ++ st).length < cfg.lim.maxItems →
+    getCount fr sh + path.length ≤ cfg.lim.callLimit →
+    fr.fn = none → sh.returned = false →
+    TSteps (instrTable H C cfg) cfg.lim (leafEntry H t path fr sh st).1 (leafEntry H t path fr sh st).2 rL →
+    Steps (instrTable H C cfg) cfg.lim (opMerkleval H cfg .done) fr sh
+      (wrapEval cfg.evalReturn { fr with rest := rest } rL) := by
+  intro path
+  induction path with
+  | nil =>
+    intro t s fr sh st rest rL hn hleaf
+    obtain ⟨l, r, rfl⟩ := hn
+    simp [leafAt] at hleaf
+  | cons d p ih =>
+    intro t s fr sh st rest rL hn hleaf hsne hrest hs hsz h32 hroom hcalls hfn hret hL
+    obtain ⟨l, r, rfl⟩ := hn
+    -- name the subtree on the path and its sibling
+    generalize hsub : (if d then r else l) = sub at *
+    generalize hsib : (if d then l else r) = sib at *
+    have hps : proofStack H (.node l r) (d :: p) = Tree.code H sub :: Tree.commitment H sib :: proofStack H sub p := by
+      simp only [proofStack, hsub, hsib]
+    rw [hps] at hs hsz hroom
+    have hleaf' : leafAt sub p = some s := by simpa [leafAt, hsub] using hleaf
+    have hdig : levelDigest H (Tree.code H sub) (Tree.commitment H sib) = Tree.root H (.node l r) := by
+      cases d with
+      | true => simp only [↓reduceIte] at hsub hsib; subst hsub; subst hsib; exact level_ok_right H l r
+      | false => simp only [Bool.false_eq_true, ↓reduceIte] at hsub hsib; subst hsub; subst hsib; exact level_ok_left H l r
+    have hrootlen : (Tree.root H (.node l r)).length = 32 := by
+      simp only [Tree.root, xorBytes]
+      rw [zipWithPad_length, hH, hH]; rfl
+    refine merkleval_accepts H cfg _ .done fr sh (Tree.root H (.node l r)) rest (Tree.code H sub) (Tree.commitment H sib)
+      (proofStack H sub p ++ st) _ hH hrootlen hrest hs (hsz _ (by simp)) (hsz _ (by simp)) h32
+      (by simp at hroom ⊢; omega) hdig ?_
+    have hcount : getCount fr sh = fr.count := by simp [getCount, hfn]
+    have hcnt : ∀ (f : Frame) (s' : Shared), f.fn = none → getCount f s' = f.count := by
+      intro f s' h; simp [getCount, h]
+    simp only [List.length_cons] at hcalls
+    cases hst : sub with
+    | leaf s' =>
+      subst hst
+      have hp : p = [] ∧ s' = s := by
+        cases p with
+        | nil => simp [leafAt] at hleaf'; exact ⟨rfl, hleaf'⟩
+        | cons _ _ => simp [leafAt] at hleaf'
+      obtain ⟨rfl, rfl⟩ := hp
+      simp only [leafEntry, hsub, proofStack, List.nil_append] at hL
+      refine eval_done cfg hev _ _ _ (Tree.code H (.leaf s')) (proofStack H (.leaf s') [] ++ st) rL rfl
+        (by simpa [Tree.code] using hsne) (by rw [hcnt _ _ (by exact hfn)]; rw [hcount] at hcalls; simp at hcalls ⊢; omega) ?_
+      simpa [proofStack, Tree.code, getCount, hfn] using hL
+    | node l' r' =>
+      subst hst
+      simp only [leafEntry, hsub] at hL
+      -- the level script `OP_MERKLEVAL <subroot>` runs in its own eval frame
+      generalize hsh1 : ({ sh with stack := proofStack H (.node l' r') p ++ st } : Shared) = sh1 at hL
+      generalize hfrE : evalFrame (Tree.code H (.node l' r')) (getCount fr sh1) (copyDict sh1 fr.dict).1 = frE at hL
+      have hih := ih (.node l' r') s { frE with rest := Tree.root H (.node l' r') } (copyDict sh1 fr.dict).2 st [] rL
+        ⟨l', r', rfl⟩ hleaf' hsne (by simp)
+        (by subst hsh1; simp [copyDict])
+        (fun x hx => hsz x (by simp [hx])) h32
+        (by simp at hroom ⊢; omega)
+        (by subst hfrE; simp [getCount, evalFrame, hfn]; omega)
+        (by subst hfrE; simp [evalFrame])
+        (by subst hsh1; simp [copyDict, hret])
+        hL
+      rw [← wrapEval_wrapEval cfg.evalReturn _ { frE with rest := [] } rL]
+      refine eval_done cfg hev _ _ _ (Tree.code H (.node l' r')) (proofStack H (.node l' r') p ++ st) _ rfl
+        (by simp [Tree.code, Tree.lockScript, opc]) (by rw [hcnt _ _ (by exact hfn)]; rw [hcount] at hcalls; simp at hcalls ⊢; omega) ?_
+      have hfr : evalFrame (Tree.code H (.node l' r'))
+          (getCount { fr with rest := rest } { sh with stack := Tree.code H (.node l' r') :: (proofStack H (.node l' r') p ++ st) })
+          (copyDict ({ ({ sh with stack := Tree.code H (.node l' r') :: (proofStack H (.node l' r') p ++ st) } : Shared) with stack := proofStack H (.node l' r') p ++ st }) ({ fr with rest := rest } : Frame).dict).1 = frE := by
+        subst hfrE; subst hsh1; rfl
+      have hsh : (copyDict ({ ({ sh with stack := Tree.code H (.node l' r') :: (proofStack H (.node l' r') p ++ st) } : Shared) with stack := proofStack H (.node l' r') p ++ st }) ({ fr with rest := rest } : Frame).dict).2 = (copyDict sh1 fr.dict).2 := by
+        subst hsh1; rfl
+      rw [hfr, hsh]
+      refine tape_single frE (copyDict sh1 fr.dict).2 60 (Tree.root H (.node l' r')) _ rfl _ rL ?_ ?_ ?_ hih
+      · subst hfrE; simp [evalFrame, Tree.code, Tree.lockScript, opc]
+      · subst hfrE; simp [evalFrame]
+      · subst hsh1; simp [copyDict, hret]
+
+/-- **the unlocking script pushes exactly the proof**: running the bytes `Tree.unlock` produces
+    (at the head of any tape) leaves `proofStack` on top of the stack and nothing else changes -/
+theorem unlock_run (cfg : Cfg) :
+    ∀ (path : List Bool) (t : Tree) (u : Bytes) (fr : Frame) (sh : Shared) (rest' : Bytes) (r : Res),
+    Tree.unlock H t path = some u → fr.rest = u ++ rest' → fr.len0 < fr.cap → sh.returned = false →
+    (∀ x ∈ proofStack H t path, 0 < x.length ∧ x.length < 65536 ∧ x.length ≤ cfg.lim.maxItemSize) →
+    (proofStack H t path).length + sh.stack.length ≤ cfg.lim.maxItems →
+    TSteps (instrTable H C cfg) cfg.lim { fr with rest := rest' } { sh with stack := proofStack H t path ++ sh.stack } r →
+    TSteps (instrTable H C cfg) cfg.lim fr sh r := by
+  intro path
+  induction path with
+  | nil =>
+    intro t u fr sh rest' r hu hrest _ _ _ _ h
+    cases t with
+    | node l r => simp [Tree.unlock] at hu
+    | leaf s =>
+      simp only [Tree.unlock, Option.some.injEq] at hu
+      subst hu
+      simp only [List.nil_append] at hrest
+      have hf : ({ fr with rest := rest' } : Frame) = fr := by cases fr; simp_all
+      have hsh : ({ sh with stack := proofStack H (.leaf s) [] ++ sh.stack } : Shared) = sh := by
+        cases sh; simp [proofStack]
+      rw [hf, hsh] at h
+      exact h
+  | cons d p ih =>
+    intro t u fr sh rest' r hu hrest hcap hr hsz hroom h
+    cases t with
+    | leaf s => simp [Tree.unlock] at hu
+    | node l r' =>
+      generalize hsub : (if d then r' else l) = sub at *
+      generalize hsib : (if d then l else r') = sib at *
+      have hun : ∃ inner, Tree.unlock H sub p = some inner ∧
+          u = inner ++ pushB (Tree.commitment H sib) ++ pushB (Tree.code H sub) := by
+        cases d with
+        | true =>
+          simp only [↓reduceIte] at hsub hsib; subst hsub; subst hsib
+          simp only [Tree.unlock, ↓reduceIte] at hu
+          cases hi : Tree.unlock H r' p with
+          | none => simp [hi] at hu
+          | some inner => simp [hi] at hu; exact ⟨inner, rfl, by rw [List.append_assoc]; exact hu.symm⟩
+        | false =>
+          simp only [Bool.false_eq_true, ↓reduceIte] at hsub hsib; subst hsub; subst hsib
+          simp only [Tree.unlock, Bool.false_eq_true, ↓reduceIte] at hu
+          cases hi : Tree.unlock H l p with
+          | none => simp [hi] at hu
+          | some inner => simp [hi] at hu; exact ⟨inner, rfl, by rw [List.append_assoc]; exact hu.symm⟩
+      obtain ⟨inner, hinner, rfl⟩ := hun
+      have hps : proofStack H (.node l r') (d :: p) = Tree.code H sub :: Tree.commitment H sib :: proofStack H sub p := by
+        simp only [proofStack, hsub, hsib]
+      rw [hps] at hsz hroom h
+      have hcm := hsz (Tree.commitment H sib) (by simp)
+      have hcd := hsz (Tree.code H sub) (by simp)
+      simp only [List.length_cons] at hroom
+      refine ih sub inner fr sh (pushB (Tree.commitment H sib) ++ (pushB (Tree.code H sub) ++ rest')) r hinner
+        (by rw [hrest]; simp [List.append_assoc]) hcap hr (fun x hx => hsz x (by simp [hx])) (by omega) ?_
+      refine run_pushB H C cfg _ _ (Tree.commitment H sib) (pushB (Tree.code H sub) ++ rest') r hcm.1 hcm.2.1 rfl hcap hr hcm.2.2
+        (by simp; omega) ?_
+      refine run_pushB H C cfg _ _ (Tree.code H sub) rest' r hcd.1 hcd.2.1 rfl hcap hr hcd.2.2
+        (by simp; omega) ?_
+      simpa using h
+
+
+/-! ### serialisation -/
+
+def Tree.depth : Tree → Nat
+  | .leaf _ => 0
+  | .node l r => max (Tree.depth l) (Tree.depth r) + 1
+
+/-- what `ScriptNode.pack` can represent: every packed child is shorter than 2^16 bytes -/
+def Tree.small : Tree → Prop
+  | .leaf _ => True
+  | .node l r => (Tree.pack l).length < 65536 ∧ (Tree.pack r).length < 65536 ∧ Tree.small l ∧ Tree.small r
+
+def tagOf : Tree → UInt8
+  | .leaf _ => 76
+  | .node _ _ => 78
+
+theorem pack_node (l r : Tree) :
+    Tree.pack (.node l r) = tagOf l :: (u2 (Tree.pack l).length ++ (Tree.pack l ++ (tagOf r :: (u2 (Tree.pack r).length ++ Tree.pack r)))) := by
+  cases l <;> cases r <;> simp [Tree.pack, tagOf, List.append_assoc]
+
+/-- **C04 serialisation.** Reading back a packed tree returns the tree itself — hence the same
+    root and the same unlocking script for every leaf — for every tree `pack` can represent,
+    given fuel above its depth. -/
+theorem unpack_pack : ∀ (fuel : Nat) (l r : Tree), Tree.small (.node l r) → Tree.depth (.node l r) ≤ fuel →
+    Tree.unpack fuel (Tree.pack (.node l r)) = some (.node l r) := by
+  intro fuel
+  induction fuel with
+  | zero => intro l r _ hd; simp [Tree.depth] at hd
+  | succ n ih =>
+    intro l r hs hd
+    obtain ⟨hl, hr, hsl, hsr⟩ := hs
+    rw [pack_node]
+    have hu2 : ∀ k, (u2 k).length = 2 := fun k => natToBytesBE_length 2 k
+    have hsub : ∀ (t : Tree), Tree.small t → Tree.depth t ≤ n → (Tree.pack t).length < 65536 →
+        (if tagOf t = 76 then some (Tree.leaf (Tree.pack t)) else Tree.unpack n (Tree.pack t)) = some t := by
+      intro t hst hdt _
+      cases t with
+      | leaf s => simp [tagOf, Tree.pack]
+      | node a b =>
+        simp only [tagOf, show (78 : UInt8) ≠ 76 by decide, ↓reduceIte]
+        exact ih a b hst hdt
+    simp only [Tree.unpack]
+    have h1 : (u2 (Tree.pack l).length ++ (Tree.pack l ++ (tagOf r :: (u2 (Tree.pack r).length ++ Tree.pack r)))).take 2 = u2 (Tree.pack l).length :=
+      take_append_len _ _ _ (hu2 _)
+    have h2 : (u2 (Tree.pack l).length ++ (Tree.pack l ++ (tagOf r :: (u2 (Tree.pack r).length ++ Tree.pack r)))).drop 2 = Tree.pack l ++ (tagOf r :: (u2 (Tree.pack r).length ++ Tree.pack r)) :=
+      drop_append_len _ _ _ (hu2 _)
+    have hn1 : natOfBytesBE (u2 (Tree.pack l).length) = (Tree.pack l).length := by
+      unfold u2; rw [natOf_natTo]; exact Nat.mod_eq_of_lt (by simpa using hl)
+    have hn2 : natOfBytesBE (u2 (Tree.pack r).length) = (Tree.pack r).length := by
+      unfold u2; rw [natOf_natTo]; exact Nat.mod_eq_of_lt (by simpa using hr)
+    rw [h1, h2, hn1, take_append_len _ _ _ rfl, drop_append_len _ _ _ rfl]
+    simp only
+    rw [take_append_len _ _ _ (hu2 _), drop_append_len _ _ _ (hu2 _), hn2]
+    simp only [Nat.lt_irrefl, ↓reduceIte, gt_iff_lt]
+    simp only [Tree.depth] at hd
+    rw [hsub l hsl (by omega) hl, hsub r hsr (by omega) hr]
+
+example : Tree.unpack 3 (Tree.pack (.node (.leaf [1, 2]) (.node (.leaf [3]) (.leaf [])))) =
+    some (.node (.leaf [1, 2]) (.node (.leaf [3]) (.leaf []))) := by decide
+
+
+/-- Non-vacuity of `tree_run` / `unlock_run`: a three-leaf tree, the middle leaf's path and proof. -/
+example : leafAt (.node (.leaf [1]) (.node (.leaf [1, 1]) (.leaf [0]))) [true, false] = some [1, 1] := rfl
+example (H : Hashes) : (proofStack H (.node (.leaf [1]) (.node (.leaf [1, 1]) (.leaf [0]))) [true, false]).length = 4 := rfl
 
 end TV.C04
